@@ -1661,7 +1661,7 @@ theorem agree_getSamples (h : Agree p ph s s') (T : τ) :
   rw [h.pts, h.dens]
   split
   · split
-    · exact ⟨rfl, ⟨h.df, h.mat, h.pts, h.dens, h.diff, h.cc, h.co⟩⟩
+    · exact ⟨rfl, ⟨h.df, h.mat, h.pts, rfl, h.diff, h.cc, h.co⟩⟩
     · exact ⟨rfl, ⟨h.df, h.mat, by simp [upd], rfl, h.diff, h.cc, h.co⟩⟩
   · exact ⟨rfl, ⟨h.df, h.mat, by simp [upd], rfl, h.diff, h.cc, h.co⟩⟩
 
@@ -1795,8 +1795,9 @@ theorem agree_curvInvalid (h : Agree p ph s s') (rm : Bool) :
   · simp only [Bool.false_eq_true, if_false]
     rw [h.cc, h.co]
     split <;> exact ⟨rfl, h⟩
-  · simp only [if_true]
-    exact ⟨by simp [upd], ⟨h.df, h.mat, h.pts, h.dens, h.diff, by simp [upd], h.co⟩⟩
+  · have e : ∀ f : Ph → Option (List (CS β σ)), upd f p none p = none := fun f => by simp [upd]
+    simp only [if_true, e]
+    exact ⟨rfl, ⟨h.df, h.mat, h.pts, h.dens, h.diff, by simp [upd], h.co⟩⟩
 
 theorem agree_curvFinish (h : Agree p ph s s') (rm : Bool) (mu : ρ) (m pr : CS β σ) :
     Sim p ph (curvFinish E s p rm mu m pr) (curvFinish E s' p rm mu m pr) := by
@@ -1922,6 +1923,14 @@ theorem query_ignores_other_phases (ip tp : Res ρ β σ → D) (h : Agree p ph 
     rw [(agree_drivingForce E p cfg ph h m x T rm).1]
   · show Ans.curv _ = Ans.curv _
     rw [(agree_curvature E p cfg ph h x T rm dir).1]
+
+/-- the seeded scenario in model terms: a diffusivity query for another phase `q` — cache kept or
+not — does not change what the next diffusivity query for `ph` returns, for ANY solver -/
+theorem diffusivity_unaffected_by_other_phase (post post' : Res ρ β σ → D) (s : St Ph C β σ τ π κ)
+    (q : Ph) (hq : ph ≠ q) (x' : χ) (T' : τ) (rm' : Bool) (x : χ) (T : τ) (rm : Bool) :
+    (diffSingle E post (diffSingle E post' s x' T' q rm').2 x T ph rm).1 = (diffSingle E post s x T ph rm).1 :=
+  (agree_diffSingle E ph ph (s := (diffSingle E post' s x' T' q rm').2) (s' := s)
+    ⟨rfl, rfl, rfl, rfl, upd_other _ q ph _ hq, rfl, rfl⟩ post x T rm).1
 
 /-- non-vacuity: a state and the same state with another phase's diffusivity entry overwritten agree on `ph` -/
 example (s : St Ph C β σ τ π κ) (q : Ph) (hq : q ≠ ph) (v : Option (List (CS β σ))) :
